@@ -347,6 +347,7 @@ def grid_cases(tier, seed):
         for n in (3, 12, 450, 5000):
             fams = [[("str", "x" * n), ("bytes", b"x" * n)], [("bytes", b"x" * n), ("str", "x" * n), ("bytes", b"x" * n)]]
             if proto is not None:
+                fams.append([("bytearray", b"x" * n), ("bytes", b"x" * n), ("str", "\ufeff" + "x" * n)])
                 obj = ("list", [("str", "ab" * n), ("int", n)])
                 fams += [[obj, ("payload-of", obj, proto)], [("payload-of", obj, proto), obj], [("int", 7 ** n), ("bytes", str(7 ** n).encode()), ("str", str(7 ** n))]]
             for fi, fam in enumerate(fams):
